@@ -74,6 +74,13 @@ def cases(rng, budget, widx, nworkers, tier):
         if r < 0.15:
             x = _displaced_container(rng, kx, s)
             label = "parallel-displaced"
+        if x is None and r < 0.2 and kx in ("P", "L", "H", "S") and ks in ("L", "H", "S"):
+            # candidate and container through one point, directions / offsets that differ only in a coordinate -1 against
+            # -2 (not parallel, but the two Vectors hash alike in CPython)
+            pr = gen.slab_direction_pair(rng, kx, ks)
+            if pr is not None:
+                x, s = pr
+                label = "hash-alike-directions"
         if x is None and r < 0.85:
             x = gen.targeted(rng, kx, s)
             label = "targeted"
